@@ -170,7 +170,7 @@ CLAIMED.update({
         "Coq proof (exact arithmetic) + bit-exact float correspondence evaluated in Coq",
         "DESIGN.md 4/C13"),
     "C14": (
-        "16 Coq theorems (coq/Properties/C14.v) on the exact (tick-aligned) tier: constructor validation, positions, "
+        "18 Coq theorems (coq/Properties/C14.v), 16 on the exact (tick-aligned) tier: constructor validation, positions, "
         "iteration = positions 0..N-1 with N = ceil((end-start)/step), len() = N wherever closest_frame(end) lands, "
         "closest_frame nearest and inverse of the centre, range_to_segment tiling, __call__ positions and the align_last "
         "flush condition. Decimal (non-dyadic) parameters are tied by a tolerance tier of the correspondence (exact integers in 2^-130 s), not proved.",
@@ -178,11 +178,13 @@ CLAIMED.update({
         "Coq proof (Z division lemmas, lia/nia) + exhaustive small-geometry correspondence",
         "DESIGN.md 4/C14"),
     "C15": (
-        "13 Coq theorems (coq/Properties/C15.v): loose = frames touching the focus, strict = frames inside it, strict "
+        "14 Coq theorems (coq/Properties/C15.v): loose = frames touching the focus, strict = frames inside it, strict "
         "subset of loose, center by definition of closest_frame, fixed count = samples, index array = range, Timeline "
         "focus = increasing duplicate-free union over support segments, empty focus empty; return_ranges = separated half-open "
-        "runs describing exactly the same index set (merge rule proved set-preserving from monotonicity of the per-segment ranges).",
-        "Trusted: Coq kernel + vm_compute; model coq/Model/Window.v; harness.",
+        "runs describing exactly the same index set (merge rule proved set-preserving from monotonicity of the per-segment ranges); "
+        "binary64 level: the float quotient behind each index is within 8 * 2^-53 relative of the exact one (justifies the tolerance tier).",
+        "Trusted: Coq kernel + vm_compute; model coq/Model/Window.v; harness. The binary64 theorem relies on the standard library's "
+        "real-number axioms (sig_not_dec, sig_forall_dec, functional_extensionality_dep, classic) and models IEEE arithmetic by Flocq's round.",
         "Coq proof + exhaustive small-geometry correspondence",
         "DESIGN.md 4/C15"),
     "C16": (
@@ -213,15 +215,17 @@ CLAIMED.update({
         "Coq proof + correspondence evaluated in Coq",
         "DESIGN.md 4/C19"),
     "C20": (
-        "20 Coq theorems (coq/Properties/C20.v): to_condensed symmetric, rejects the diagonal, numbers pairs in row-major "
+        "23 Coq theorems (coq/Properties/C20.v): to_condensed symmetric, rejects the diagonal, numbers pairs in row-major "
         "order 0..n(n-1)/2-1 strictly increasingly; to_squared inverse both ways (exact integer square root); pdist layout "
         "at to_condensed positions, cdist entries, metric definitions; propagate_constraints returns exactly the pairs "
         "implied by closing the cannot-link pairs under the must-link equivalence (sound and complete), raises exactly when a "
         "must-link group contains a cannot-link pair, and never exhausts the model's fuel (non-degenerate input pairs; "
-        "degenerate ones tied only). l2_normalize is checked numerically.",
+        "degenerate ones tied only). l2_normalize: proved over the reals (unit norm, entries = original / norm, zero rows unchanged; "
+        "real-number axioms) and checked numerically on floats within 4 ulp by the driver.",
         "Trusted: Coq kernel + vm_compute; model coq/Model/Condensed.v (exact arithmetic; the float sqrt of to_squared is "
         "tied up to n = 10^7 at row starts/ends); harness running under python3-vt with the repository files loaded "
-        "through a synthetic package.",
+        "through a synthetic package. The three l2_normalize theorems rely on the standard library's real-number axioms "
+        "(sig_not_dec, sig_forall_dec, functional_extensionality_dep).",
         "Coq proof (nia over Z) + exhaustive/sampled correspondence",
         "DESIGN.md 4/C20"),
 })
